@@ -66,10 +66,6 @@ func validateHAMTData(nd data.UnixFSData) error {
 		return ErrInvalidHashType
 	}
 
-	if !nd.FieldData().Exists() {
-		return ErrNoDataField
-	}
-
 	if !nd.FieldFanout().Exists() {
 		return ErrNoFanoutField
 	}
@@ -99,7 +95,11 @@ func bitField(nd data.UnixFSData) (bitfield.Bitfield, error) {
 	if err != nil {
 		return nil, err
 	}
-	bf.SetBytes(nd.FieldData().Must().Bytes())
+	// the reference implementation omits the Data field when the bitfield is
+	// empty (a shard with no children), treat that as all zeroes
+	if nd.FieldData().Exists() {
+		bf.SetBytes(nd.FieldData().Must().Bytes())
+	}
 	return bf, nil
 }
 
